@@ -120,7 +120,7 @@ pub fn case_program(va: &dyn VariantApi, prog: &Program, st: &CaseStats) -> Resu
 
 fn run_sequences(ctx: &Ctx) -> CheckResult {
     let strict = ctx.api.caps().strict;
-    let cases = ctx.tier.pick(600u32, 12_000);
+    let cases = ctx.tier.pick(1500u32, 20_000);
     for va in ctx.api.variants() {
         let v = va.v();
         ctx.pt_run(
